@@ -92,6 +92,9 @@ func (vc *VC) assertClause(st, old *State, c *Clause, name, kind string, pos tok
 	}
 	g := vc.specClause(st, old, c, extra, pos)
 	vc.assert(st, name, kind, pos, c.Src, g)
+	if n := len(vc.obls); n > 0 && vc.obls[n-1].Name == name {
+		vc.obls[n-1].Label = c.Label
+	}
 }
 
 func specString(e SExpr) string {
